@@ -17,7 +17,7 @@ from .c01 import draw_fmt, fmt_tag
 ID = "C03"
 PROBES = ['files_compared']  # reach probes: counters that must be non-zero in a run (a zero is printed and recorded)
 LEVEL = "exploration"
-BUDGET = {"quick": 1000, "thorough": 40000}
+BUDGET = {"quick": 1000, "thorough": 25000}
 WALL = {"quick": 300, "thorough": 3400}
 TECHNIQUE = "deterministic simulation: seeded session histories over a durable directory; before/after comparison of every file with the changed argument spans masked, clause chosen by the simulated formatter state"
 LEVEL_TEXT = ("seeded search over layouts (non-ASCII text left of the call, trailing comments, tabs, two sites on one line, multi-line arguments with comments, "
